@@ -113,6 +113,10 @@ func genC14(ev *Ev) func(t *rapid.T) model.Case {
 				default:
 					nf.EndMarker = true
 				}
+				if nf.HasSMReq || nf.EndMarker {
+					// the other bits of the octet (DROBU, QAURR) ride along
+					nf.SMExtra = rapid.SampledFrom([]uint8{0, 0, 0x01, 0x04, 0x05}).Draw(t, "smextra")
+				}
 				op.UpdFARs = append(op.UpdFARs, nf)
 				g.fars[i] = nf
 			}
@@ -190,6 +194,8 @@ func runC14(c model.Case, ev *Ev) error {
 	changed := map[string]bool{}
 	pktBase := pktLen()
 	breaks := 0
+	justBroke := false
+	carry := 0 // optional markers of earlier modifications that may still arrive
 	for i, op := range c.Ops {
 		// tunnels before the update
 		before := map[uint32]model.FAR{}
@@ -206,6 +212,7 @@ func runC14(c model.Case, ev *Ev) error {
 					return fmt.Errorf("INFRA: switch restart: %v", err)
 				}
 				breaks++
+				justBroke = true
 			}
 			continue
 		}
@@ -216,6 +223,18 @@ func runC14(c model.Case, ev *Ev) error {
 		if op.Kind != "mod" {
 			continue
 		}
+		if !o.Accepted && up4 && justBroke {
+			// the first request after a channel break may find the agent still believing in the dead channel:
+			// the write fails and the request is refused - a failed update, which must emit nothing
+			justBroke = false
+			time.Sleep(20 * time.Millisecond)
+			if extra := pktSince(pktBase); len(extra) > carry {
+				return fmt.Errorf("op %d: the modification was refused (cause %d) right after a channel break, yet %d end marker(s) were emitted", i, o.Cause, len(extra)-carry)
+			}
+			ev.Label("mod/refused-after-channel-break")
+			continue
+		}
+		justBroke = false
 		if !o.Accepted {
 			return fmt.Errorf("op %d: modification inside the envelope rejected (cause %d)", i, o.Cause)
 		}
@@ -251,8 +270,18 @@ func runC14(c model.Case, ev *Ev) error {
 				time.Sleep(200 * time.Microsecond)
 			}
 			time.Sleep(2 * time.Millisecond) // grace for surplus packets
+			// markers that may or may not be emitted get time to arrive, so that they are not counted for
+			// the next modification; what still has not come is carried over as allowance
+			optional += carry
+			for w := time.Now().Add(150 * time.Millisecond); optional > 0 && time.Now().Before(w) && pktLen()-pktBase < len(want)+optional; {
+				time.Sleep(500 * time.Microsecond)
+			}
 			got = pktSince(pktBase)
 			pktBase += len(got)
+		}
+		carry = 0
+		if n := len(want) + optional - len(got); n > 0 && n <= optional {
+			carry = n
 		}
 		if len(got) < len(want) || len(got) > len(want)+optional {
 			return fmt.Errorf("op %d: %d end marker(s) emitted, want %d (+%d optional) for updates %+v (end markers enabled=%v)", i, len(got), len(want), optional, op.UpdFARs, enabled)
